@@ -8,9 +8,15 @@
 //	    partition that the delimiters of the file define (rule below),
 //	(2) the default (EncModeSegment) File.Encode / File.EncodeSW output is compared byte by byte with the
 //	    input minus the top-level boxes that are documented as not belonging to init or media segments,
-//	(3) File.UpdateSidx(addIfNotExists, nonZeroEPT) + File.Encode is checked on the OUTPUT bytes, located
-//	    with the independent reader fragbuild.Read: the sidx tiles the media, durations/EPT/timescale/
-//	    reference_ID follow the model, all samples of all tracks are still where the output says they are.
+//	(3) File.UpdateSidx(addIfNotExists, nonZeroEPT) (once, or twice in a row: "twice") + File.Encode is
+//	    checked on the OUTPUT bytes, located with the independent reader fragbuild.Read: the sidx tiles the
+//	    media, durations/EPT/timescale/reference_ID follow the model, all samples of all tracks are still
+//	    where the output says they are; File.EncodeSW into a buffer of exactly File.Size() bytes gives the
+//	    same bytes as File.Encode.
+//
+// Variant "mediaOnly": the decoders get the file WITHOUT ftyp/moov (a sequence of media segments, the form
+// in which segments travel); (1) and (2) are judged as above, UpdateSidx must return an error (there is no
+// init segment to take the reference track from) and not panic.
 //
 // # The segmentation rule (derived from the library's documentation)
 //
@@ -149,6 +155,11 @@ var avoidKnown = map[string]bool{
 	// MediaSegment.Size counts the first sidx of a segment only, Encode writes all of them: the sizes that
 	// UpdateSidx puts into the references are short by the further sidx boxes (mp4/testdata has such a file).
 	"segment-size-counts-first-sidx-only": false, // repaired in /repo (fix: 3cbd5f5)
+	// UpdateSidx (findSegmentData) sums the sample durations of the reference track of a segment in a uint32:
+	// a segment that lasts 2^32 ticks or more gets the sum modulo 2^32 as subsegment_duration, no error is
+	// returned (the field is 32 bits wide: the segment cannot be indexed at all). Oracle side: the duration
+	// of such a reference is not judged. Reproducer: replay/C12/pending/new-sidx-duration-wraps.json
+	"sidx-duration-wraps": false, // repaired in /repo (fix: 94036ef)
 }
 
 type segCase struct {
@@ -165,6 +176,11 @@ type segCase struct {
 	// -startSegOnMoof = Flags "moof", -removeEnc = RemoveEnc) instead of UpdateSidx + Encode in-process
 	Tool      bool `json:"tool,omitempty"`
 	RemoveEnc bool `json:"removeEnc,omitempty"`
+	// Twice: UpdateSidx is called two times in a row before encoding (the second call finds the index the
+	// first one made): same expectation
+	Twice bool `json:"twice,omitempty"`
+	// MediaOnly: the decoder gets the bytes behind ftyp/moov only (no mfra, no absolute base_data_offset)
+	MediaOnly bool `json:"mediaOnly,omitempty"`
 	NoAvoid   bool `json:"noAvoid,omitempty"` // ignore avoidKnown (reproducers of known findings) ...
 	// ... or, when names are given, only these switches (a reproducer shows its own failure even if the same
 	// input also runs into another known finding earlier in the oracle)
@@ -204,7 +220,11 @@ func (c *segCase) avoid(name string) bool {
 	return true
 }
 
-type stats struct{ skipped map[string]bool }
+type stats struct {
+	skipped map[string]bool
+	slow    bool // the tool exceeded its time limit next to its siblings, not when run alone
+	refused bool // UpdateSidx refused a segment duration that 32 bits cannot hold
+}
 
 // skip reports whether the relation guarded by the named switch is left unjudged (and notes it).
 func (c *segCase) skip(st *stats, name string) bool {
@@ -428,6 +448,50 @@ func addSecondSegSidx(c *segCase, file []byte, truth *fragbuild.Truth) ([]byte, 
 		}
 	}
 	return file, out, nil
+}
+
+// cutInit turns the truth of a built file into the truth of file[truth.InitSize:].
+func cutInit(truth *fragbuild.Truth, sidx2 map[int]fragbuild.BoxInfo) {
+	d := truth.InitSize
+	var boxes []fragbuild.BoxInfo
+	for _, b := range truth.Boxes {
+		if b.Offset >= d {
+			b.Offset -= d
+			boxes = append(boxes, b)
+		}
+	}
+	truth.Boxes = boxes
+	mv := func(b *fragbuild.BoxInfo) {
+		if b != nil {
+			b.Offset -= d
+		}
+	}
+	mv(truth.TopSidx)
+	mv(truth.Mfra)
+	for k, b := range sidx2 {
+		b.Offset -= d
+		sidx2[k] = b
+	}
+	for si := range truth.Segments {
+		sg := &truth.Segments[si]
+		sg.Offset -= d
+		mv(sg.Styp)
+		mv(sg.Sidx)
+		for fi := range sg.Frags {
+			ft := &sg.Frags[fi]
+			ft.Offset -= d
+			for pi := range ft.Pre {
+				mv(&ft.Pre[pi])
+			}
+			mv(&ft.Moof)
+			mv(&ft.Mdat)
+			ft.MdatPayload -= d
+			for ri := range ft.Runs {
+				ft.Runs[ri].DataOffset -= d
+			}
+		}
+	}
+	truth.InitSize = 0
 }
 
 func checkSeg(c segCase) *harness.Fail {
@@ -755,9 +819,26 @@ func evalSegWith(c *segCase, st *stats, keepPrft bool) *harness.Fail {
 			return harness.Failf("harness|c12|bad-case", "%v", err)
 		}
 	}
+	if c.MediaOnly {
+		if c.Tool || c.Layout.Mfra {
+			return harness.Failf("harness|c12|bad-case", "mediaOnly with tool or mfra")
+		}
+		for si := range c.Layout.Segments {
+			for fi := range c.Layout.Segments[si].Frags {
+				if c.Layout.Segments[si].Frags[fi].Opts.Base == 1 {
+					return harness.Failf("harness|c12|bad-case", "mediaOnly with absolute base_data_offset")
+				}
+			}
+		}
+		file = file[truth.InitSize:]
+		cutInit(truth, sidx2)
+	}
 	rule := c.rule()
 	part := c.partition()
 	dec := decName(c)
+	if c.MediaOnly {
+		dec += " without init segment"
+	}
 
 	// ---- the model: fragments in file order, expected segment of each, expected output boxes
 	var frags []*fragbuild.FragTruth
@@ -778,7 +859,7 @@ func evalSegWith(c *segCase, st *stats, keepPrft bool) *harness.Fail {
 	}
 	var boxes []obox
 	for _, b := range truth.Boxes {
-		if b.Offset < truth.InitSize {
+		if b.Offset < truth.InitSize { // none when the init segment was cut off (mediaOnly)
 			boxes = append(boxes, obox{in: b, seg: -1, frag: -1, role: "init"})
 		}
 	}
@@ -828,7 +909,11 @@ func evalSegWith(c *segCase, st *stats, keepPrft bool) *harness.Fail {
 	if err != nil {
 		return harness.Failf("C12|"+dec+"|error on consistent fragmented file", "rule %s, flags %q: %v", rule, c.Flags, err)
 	}
-	if !f.IsFragmented() || f.Init == nil || f.Init.Ftyp == nil || f.Init.Moov == nil {
+	if c.MediaOnly {
+		if !f.IsFragmented() || f.Init != nil {
+			return harness.Failf("C12|"+dec+"|media segments not recognised as a fragmented file", "IsFragmented %v Init %v", f.IsFragmented(), f.Init != nil)
+		}
+	} else if !f.IsFragmented() || f.Init == nil || f.Init.Ftyp == nil || f.Init.Moov == nil {
 		return harness.Failf("C12|"+dec+"|init segment missing", "IsFragmented %v Init %v", f.IsFragmented(), f.Init != nil)
 	}
 
@@ -1008,16 +1093,54 @@ func evalSegWith(c *segCase, st *stats, keepPrft bool) *harness.Fail {
 	}
 
 	// ---- (3) UpdateSidx + Encode
+	// a segment in which the reference track lasts 2^32 ticks or more cannot be indexed
+	segDurBeyond32 := func() bool {
+		ri := refTrack(c.Tracks)
+		for i := range part {
+			var dur uint64
+			for _, g := range part[i] {
+				tr := frags[g].Tracks[ri]
+				for k := tr.First; k < tr.First+tr.N; k++ {
+					dur += uint64(c.Tracks[ri].Samples[k].Dur)
+				}
+			}
+			if dur > 0xffffffff {
+				return true
+			}
+		}
+		return false
+	}
 	existed := truth.TopSidx != nil
 	var o []byte
+	if c.MediaOnly {
+		// no init segment: nothing names the reference track; an error is the only sensible answer
+		if err := f.UpdateSidx(c.AddIfNotExists, c.NonZeroEPT); err == nil {
+			return harness.Failf("C12|File.UpdateSidx|no error without init segment", "UpdateSidx(%v, %v) returned nil; %s", c.AddIfNotExists, c.NonZeroEPT, describe())
+		}
+		return nil
+	}
 	if c.Tool {
 		var fail *harness.Fail
-		if o, fail = runAddSidx(c, file); fail != nil {
+		if o, fail = runAddSidx(c, file, st); fail != nil {
+			if fail.Key == "C12|add-sidx|error on valid input" && segDurBeyond32() {
+				st.refused = true
+				return nil
+			}
 			return fail
 		}
 	} else {
 		if err := f.UpdateSidx(c.AddIfNotExists, c.NonZeroEPT); err != nil {
+			if segDurBeyond32() {
+				// subsegment_duration has 32 bits: an error is the correct answer
+				st.refused = true
+				return nil
+			}
 			return harness.Failf("C12|File.UpdateSidx|error on decoded file", "%v; %s", err, describe())
+		}
+		if c.Twice {
+			if err := f.UpdateSidx(c.AddIfNotExists, c.NonZeroEPT); err != nil {
+				return harness.Failf("C12|File.UpdateSidx|error on the second call", "%v; %s", err, describe())
+			}
 		}
 		out.Reset()
 		if err := f.Encode(&out); err != nil {
@@ -1025,10 +1148,34 @@ func evalSegWith(c *segCase, st *stats, keepPrft bool) *harness.Fail {
 		}
 		o = out.Bytes()
 	}
+	who3 := "UpdateSidx+Encode"
+	if c.Twice && !c.Tool {
+		who3 = "UpdateSidx twice+Encode"
+	}
+	// the SliceWriter encoder after UpdateSidx: File.Size ("total size of what Encode writes") bytes must do,
+	// and hold what Encode wrote
+	swAfter := func(exp []ebox) *harness.Fail {
+		if c.Tool {
+			return nil
+		}
+		sw := bits.NewFixedSliceWriter(int(f.Size()))
+		if err := f.EncodeSW(sw); err != nil {
+			return harness.Failf("C12|File.EncodeSW|error after UpdateSidx in a buffer of File.Size bytes", "Size() %d, Encode wrote %d bytes: %v; %s", f.Size(), len(o), err, describe())
+		}
+		if _, fail := compareOut("UpdateSidx+EncodeSW", sw.Bytes(), exp); fail != nil {
+			return fail
+		}
+		if !bytes.Equal(sw.Bytes(), o) {
+			return harness.Failf("C12|UpdateSidx+EncodeSW|output differs from that of Encode", "EncodeSW %d bytes, Encode %d bytes; %s", len(sw.Bytes()), len(o), describe())
+		}
+		return nil
+	}
 	if !existed && !c.AddIfNotExists {
 		// nothing to update, nothing to add: same output as before
-		_, fail := compareOut("UpdateSidx(false,_)+Encode", o, exp)
-		return fail
+		if _, fail := compareOut("UpdateSidx(false,_)+Encode", o, exp); fail != nil {
+			return fail
+		}
+		return swAfter(exp)
 	}
 	// expected: init boxes, one sidx, then the media boxes unchanged (a previous top-level sidx replaced)
 	var exp3 []ebox
@@ -1048,11 +1195,14 @@ func evalSegWith(c *segCase, st *stats, keepPrft bool) *harness.Fail {
 		}
 		exp3 = append(exp3, e)
 	}
-	pos, fail := compareOut("UpdateSidx+Encode", o, exp3)
+	pos, fail := compareOut(who3, o, exp3)
 	if fail != nil {
 		if strings.HasSuffix(fail.Key, "sequence differs: sidx expected") {
-			fail.Key = "C12|UpdateSidx+Encode|no top-level sidx directly after the init boxes"
+			fail.Key = "C12|" + who3 + "|no top-level sidx directly after the init boxes"
 		}
+		return fail
+	}
+	if fail := swAfter(exp3); fail != nil {
 		return fail
 	}
 	sidxEnd := pos[sidxAt+1]
@@ -1103,7 +1253,13 @@ func evalSegWith(c *segCase, st *stats, keepPrft bool) *harness.Fail {
 		if r.Type != 0 {
 			return harness.Failf("C12|UpdateSidx|reference_type not media", "reference %d: %+v", i, r)
 		}
+		if dur > 0xffffffff && c.skip(st, "sidx-duration-wraps") {
+			continue
+		}
 		if uint64(r.Duration) != dur {
+			if dur > 0xffffffff {
+				return harness.Failf("C12|UpdateSidx|no error for a segment whose duration does not fit subsegment_duration", "reference %d: duration %d, track index %d (ID %d) has %d (%#x) in segment %d: 32 bits cannot hold it, UpdateSidx returned nil; %s", i, r.Duration, ri, rt.ID, dur, dur, i, describe())
+			}
 			return harness.Failf("C12|UpdateSidx|subsegment_duration differs from the summed sample durations of the reference track", "reference %d: duration %d, track index %d (ID %d) has %d in segment %d; %s", i, r.Duration, ri, rt.ID, dur, i, describe())
 		}
 	}
@@ -1356,9 +1512,21 @@ var modes = []string{modeNone, modeMoof, modeStyp, modeStypSegSidx, modeStypTopS
 
 func genCase(t *rapid.T) (segCase, string) {
 	v, a := harvested()
-	tracks := fragbuild.GenTracks(t, fragbuild.GenOpt{MaxTracks: 3, MaxSamples: 10, VideoStsd: v, AudioStsd: a})
+	tracks := fragbuild.GenTracks(t, fragbuild.GenOpt{MaxTracks: 3, MaxSamples: harness.Pick(24, 32), VideoStsd: v, AudioStsd: a})
 	c := segCase{Tracks: tracks}
 	mode := rapid.SampledFrom(modes).Draw(t, "mode")
+	ri := refTrack(tracks)
+	// one case in twelve (modes without sidx boxes in the input: a reference cannot hold such a duration):
+	// 2..3 samples of the reference track last 2^31 .. 2^32-1 ticks, so that a segment can last more than 2^32
+	if mode != modeStypSegSidx && mode != modeStypTopSidx && mode != modeTopSidx && len(tracks[ri].Samples) >= 2 &&
+		rapid.IntRange(0, 11).Draw(t, "hugeDurs") == 0 {
+		rt := &tracks[ri]
+		k := rapid.IntRange(2, min(3, len(rt.Samples))).Draw(t, "hugeDurCount")
+		first := rapid.IntRange(0, len(rt.Samples)-k).Draw(t, "hugeDurFirst")
+		for i := first; i < first+k; i++ {
+			rt.Samples[i].Dur = rapid.SampledFrom([]uint32{0x7fffffff, 0x80000000, 0xffffffff}).Draw(t, "hugeDur")
+		}
+	}
 	lay := &c.Layout
 
 	// which tracks get a tfra
@@ -1426,8 +1594,22 @@ func genCase(t *rapid.T) (segCase, string) {
 		total += n
 	}
 	counts := make([][]int, len(tracks))
+	// one case in three: the reference track (the one the index takes its durations and times from) has a
+	// sample in every segment (in every fragment when each fragment is to be a segment), if it has enough
+	refEvery := rapid.IntRange(0, 2).Draw(t, "refInEverySegment") == 0
 	for ti := range tracks {
-		counts[ti] = pieces(t, len(tracks[ti].Samples), total, needed[ti])
+		n := len(tracks[ti].Samples)
+		switch {
+		case ti == ri && refEvery && !needed[ti] && mode == modeMoof && n >= total:
+			counts[ti] = pieces(t, n, total, true)
+		case ti == ri && refEvery && !needed[ti] && mode != modeMoof && len(nFrags) > 1 && n >= len(nFrags):
+			perSeg := pieces(t, n, len(nFrags), true)
+			for si, nf := range nFrags {
+				counts[ti] = append(counts[ti], pieces(t, perSeg[si], nf, false)...)
+			}
+		default:
+			counts[ti] = pieces(t, n, total, needed[ti])
+		}
 	}
 
 	styp := mode == modeStyp || mode == modeStypSegSidx || mode == modeStypTopSidx
@@ -1508,6 +1690,19 @@ func genCase(t *rapid.T) (segCase, string) {
 	c.Decoder = rapid.SampledFrom([]string{"file", "file", "sr", "sr", "lazy"}).Draw(t, "decoder")
 	c.AddIfNotExists = rapid.IntRange(0, 3).Draw(t, "addIfNotExists") != 0
 	c.NonZeroEPT = rapid.Bool().Draw(t, "nonZeroEPT")
+	c.Twice = rapid.Bool().Draw(t, "twice")
+	if rapid.IntRange(0, 5).Draw(t, "mediaOnly") == 0 {
+		// the media segments alone: nothing that stores absolute file offsets (mfra, explicit base_data_offset)
+		c.MediaOnly = true
+		lay.Mfra, lay.MfraFirstTrackOnly = false, false
+		for si := range lay.Segments {
+			for fi := range lay.Segments[si].Frags {
+				if o := &lay.Segments[si].Frags[fi].Opts; o.Base == 1 {
+					o.Base = 0
+				}
+			}
+		}
+	}
 	return c, mode
 }
 
@@ -1715,6 +1910,45 @@ func classify(c *segCase, mode string) (bool, []string) {
 	add(nPrft > 0, "pre-prft", "")
 	add(nOther > 0, "pre-dropped-kinds", "")
 	add(c.SegSidx2, "segsidx-two-per-segment", "")
+	add(c.Twice && !c.Tool && !c.MediaOnly && c.Decoder != "lazy", "updatesidx-twice", "")
+	add(c.MediaOnly, "media-only", "")
+	add(c.MediaOnly && c.Layout.TopSidx, "media-only-starts-with-sidx", "")
+	{
+		// the reference track in the expected segments (layout order = sample order)
+		every, any64 := true, false
+		g := 0
+		segOf := map[int]int{}
+		for s, fl := range part {
+			for _, gi := range fl {
+				segOf[gi] = s
+			}
+		}
+		has := make([]bool, len(part))
+		durs := make([]uint64, len(part))
+		pos := 0
+		for si := range c.Layout.Segments {
+			for fi := range c.Layout.Segments[si].Frags {
+				for _, r := range c.Layout.Segments[si].Frags[fi].Runs {
+					if r.Track != refTrack(c.Tracks) {
+						continue
+					}
+					for k := 0; k < r.N && pos < len(rt.Samples); k++ {
+						has[segOf[g]] = true
+						durs[segOf[g]] += uint64(rt.Samples[pos].Dur)
+						pos++
+					}
+				}
+				g++
+			}
+		}
+		for s := range part {
+			every = every && has[s]
+			any64 = any64 || durs[s] > 0xffffffff
+		}
+		add(every, "ref-track-in-every-segment", "ref-track-absent-from-a-segment")
+		add(every && len(part) >= 2, "ref-track-in-every-segment-of-several", "")
+		add(any64, "segment-duration-beyond-32-bits", "")
+	}
 	add(c.Layout.Mfra && !c.ism(), "mfra-without-flag", "")
 	add(!c.Layout.Mfra && c.ism(), "ism-flag-without-mfra", "")
 	classes = append(classes, fragbuild.Classes(c.Tracks, c.Layout)...)
@@ -1722,7 +1956,7 @@ func classify(c *segCase, mode string) (bool, []string) {
 }
 
 // runAddSidx runs the built examples/add-sidx tool on the input and returns its output file.
-func runAddSidx(c *segCase, file []byte) ([]byte, *harness.Fail) {
+func runAddSidx(c *segCase, file []byte, st *stats) ([]byte, *harness.Fail) {
 	if f := missingBin("add-sidx"); f != nil {
 		return nil, f
 	}
@@ -1748,6 +1982,10 @@ func runAddSidx(c *segCase, file []byte) ([]byte, *harness.Fail) {
 		args = append(args, "-removeEnc")
 	}
 	r := runTool(dir, binPath("add-sidx"), append(args, "in.mp4", "out.mp4")...)
+	st.slow = st.slow || r.SlowUnderLoad
+	if r.TimedOut {
+		return nil, timeLimitFail("add-sidx", "add-sidx "+strings.Join(args, " "), r)
+	}
 	if crashed, class := r.crashed(); crashed {
 		return nil, harness.Failf("C12|add-sidx|panic ("+class+")", "%s", tail(r.Stderr, 1500))
 	}
@@ -1783,6 +2021,7 @@ func TestAddSidxTool(t *testing.T) {
 		for i := range cases {
 			c, mode := genCase(rt)
 			c.Tool, c.AddIfNotExists, c.Decoder = true, true, "file"
+			c.Twice, c.MediaOnly = false, false
 			c.setFlags(false, c.moof())
 			c.Layout.Mfra = false // ISM-style files are outside the tool's options
 			if rapid.Bool().Draw(rt, "encLeftovers") {
@@ -1810,6 +2049,12 @@ func TestAddSidxTool(t *testing.T) {
 			classes = append(classes, "tool-add-sidx")
 			if cases[i].RemoveEnc {
 				classes = append(classes, "tool-removeEnc")
+			}
+			if sts[i].slow {
+				classes = append(classes, "tool-slow-under-load")
+			}
+			if sts[i].refused {
+				classes = append(classes, "updatesidx-refuses-segment-duration-beyond-32-bits")
 			}
 			harness.Rec.Case(nt, raw, classes...)
 			if harness.Rec.WantSample() && nt {
@@ -1853,6 +2098,9 @@ func TestSegmentation(t *testing.T) {
 		sort.Strings(names)
 		for _, name := range names {
 			harness.Rec.Exclude(name)
+		}
+		if st.refused {
+			harness.Rec.Class("updatesidx-refuses-segment-duration-beyond-32-bits")
 		}
 		harness.Report(rt, "segmentation", c, f)
 	})
@@ -2001,6 +2249,15 @@ func knownFindingCases() map[string]segCase {
 		"segment-size-counts-first-sidx-only": {Tracks: one, Decoder: "file", SegSidx2: true, AddIfNotExists: true, NoAvoid: true,
 			Layout: fragbuild.FileLayout{SeqStart: 1, Segments: []fragbuild.Segment{
 				{Styp: true, Sidx: true, Frags: []fragbuild.Frag{{Runs: oneRun(2)}}}}}},
+		// two samples of 2^31 ticks in one segment: 2^32 ticks, subsegment_duration 0 (pending triage:
+		// replay/C12/pending/new-sidx-duration-wraps.json is the case the search found)
+		"sidx-duration-wraps": {Tracks: []fragbuild.Track{func() fragbuild.Track {
+			t := tinyTrack(1, "text", "AAAA", "BBB")
+			t.Samples[0].Dur, t.Samples[1].Dur = 0x80000000, 0x80000000
+			return t
+		}()}, Decoder: "file", AddIfNotExists: true, NoAvoid: true,
+			Layout: fragbuild.FileLayout{SeqStart: 1, Segments: []fragbuild.Segment{
+				{Frags: []fragbuild.Frag{{Runs: oneRun(2)}}}}}},
 		"sr-ignores-ism-flag": {Tracks: one, Decoder: "sr", Flags: "ism", NoAvoid: true,
 			Layout: fragbuild.FileLayout{SeqStart: 1, Mfra: true, Segments: []fragbuild.Segment{
 				{Frags: []fragbuild.Frag{{Runs: oneRun(1)}}}, {Frags: []fragbuild.Frag{{Runs: oneRun(1)}}}}}},
